@@ -40,7 +40,7 @@ def gen_script(rng):
 
 
 def run(ctx):
-    tier, rng = ctx.tier, ctx.rng
+    tier, rng = ctx.tier, ctx.sub_rng("fam_files_c11.1")
     binp = ctx.go_test_build("./cmd/thermal-recorder", "tr.test")
     n = 60 if tier == "quick" else 1200
     scripts = [gen_script(rng) for _ in range(n)]
